@@ -88,7 +88,6 @@ def abstract_bundle(octets):
     rec['crcp'] = p['crc_type']
     rec['tsnz'] = p['ts_time'] != 0
     rec['base'] = '%s|%d|%d' % (p['src'], p['ts_time'], p['ts_seq'])
-    rec['id'] = rec['base'] + ('|%s|%s' % (p['frag_off'], p['total']) if rec['isfrag'] else '')
     # everything of the primary block that forwarding must preserve
     rec['prim'] = '%d|%d|%s|%s|%s|%d|%d|%d|%s|%s' % (p['version'], p['flags'], p['dest'], p['src'], p['rpt'],
                                                      p['ts_time'], p['ts_seq'], p['lifetime'], p['frag_off'],
@@ -97,6 +96,8 @@ def abstract_bundle(octets):
     if pay is not None:
         rec['paylen'] = clampi(len(pay))
         rec['pay'] = dig(pay)
+    # a fragment is identified by its offset and its own payload length (two paths may cut at the same offset)
+    rec['id'] = rec['base'] + ('|%s|%s' % (p['frag_off'], len(pay) if pay is not None else -1) if rec['isfrag'] else '')
     for b in bun['blocks']:
         kind, val = bp7.read_block_data(b['type'], b['data']) if b['type'] != 1 else ('payload', None)
         ent = {'type': clampi(b['type']), 'num': clampi(b['num']), 'flags': clampi(b['flags']), 'crc': b['crc_type'],
